@@ -33,8 +33,10 @@ def _lin(exprs, E):
 def r1_third_core(idx, r):
     U = unit_steps(idx)
     f = idx.method(HEX, "_getSymmetricIdenticalsThird")
-    st = next((s for s in iter_stores(f.node) if s.attr == "identicals" and isinstance(s.value, ast.List)), None)
-    if st is None or len(st.value.elts) != 2:
+    from ..astutil import returned_values
+    from types import SimpleNamespace
+    st = next((SimpleNamespace(value=v, stmt=nd) for v, nd in returned_values(f.node) if isinstance(v, ast.List) and len(v.elts) == 2), None)
+    if st is None:
         raise AnalysisError("_getSymmetricIdenticalsThird: list of two images expected")
     E = ExprEval(env={"i": I, "j": J}, opaque=False)
     maps = []
